@@ -1,1 +1,493 @@
-pub fn main(_long: bool) {}
+//! C13: edge paths of spec/codec/FramedRead.tla replayed on the real `Framed` stream over a scripted `AsyncRead`,
+//! and long random streams judged by the reference `frames()` (a transliteration of WholeStreamFrames that is
+//! cross-checked against every TLC-computed `want` of the small domain).
+//!
+//! schedule: `{codec, input:[bytes], want:[items], polls:[{io:[{a,k}..], res:{k,v}}..]}`; the read results of all
+//! polls form one global script; the scripted reader pops the next answer on every poll_read, whichever poll it
+//! is in, and records per poll what it really answered.
+
+use std::{
+    collections::VecDeque,
+    io,
+    pin::Pin,
+    task::{Context, Poll},
+};
+
+use actix_codec::{AsyncRead, AsyncWrite, BytesCodec, Decoder, Framed, LinesCodec, ReadBuf};
+use bytes::{Buf, BytesMut};
+use futures_core::Stream;
+use vcore::{arg, catch, geti, gets, json, read_ndjson, Trace, Value, Wakers};
+
+use crate::{bytes_of, lines::ref_flat, uarg, Rng};
+
+// ------------------------------------------------------------------------------------------
+// the length-prefixed test codec: header byte h (h == bad: decode error, consumes the byte),
+// payload of h*scale bytes; at end of stream a non-empty remainder is yielded as a "tail" frame
+// ------------------------------------------------------------------------------------------
+pub struct LpCodec {
+    pub scale: usize,
+    pub bad: u8,
+}
+pub enum LpItem {
+    Frame(Vec<u8>),
+    Tail(Vec<u8>),
+}
+impl Decoder for LpCodec {
+    type Item = LpItem;
+    type Error = io::Error;
+    fn decode(&mut self, src: &mut BytesMut) -> Result<Option<LpItem>, io::Error> {
+        if src.is_empty() {
+            return Ok(None);
+        }
+        if src[0] == self.bad {
+            src.advance(1);
+            return Err(io::Error::new(io::ErrorKind::InvalidData, "bad header"));
+        }
+        let need = src[0] as usize * self.scale;
+        if src.len() < 1 + need {
+            return Ok(None);
+        }
+        let mut f = src.split_to(1 + need);
+        f.advance(1);
+        Ok(Some(LpItem::Frame(f.to_vec())))
+    }
+    fn decode_eof(&mut self, src: &mut BytesMut) -> Result<Option<LpItem>, io::Error> {
+        match self.decode(src)? {
+            Some(f) => Ok(Some(f)),
+            None if src.is_empty() => Ok(None),
+            None => Ok(Some(LpItem::Tail(src.split().to_vec()))),
+        }
+    }
+}
+
+/// in-memory item: (kind, payload)
+type Item = (&'static str, Vec<u8>);
+fn item_json(i: &Item) -> Value {
+    json!({"k": i.0, "v": i.1})
+}
+
+// ---- reference: transliteration of LpDec / LpDecEof / BytesDec / Phase / WholeStreamFrames ----
+fn lp_dec(b: &[u8], scale: usize, bad: u8) -> (Option<Item>, &[u8]) {
+    if b.is_empty() {
+        (None, b)
+    } else if b[0] == bad {
+        (Some(("err", vec![])), &b[1..])
+    } else {
+        let need = b[0] as usize * scale;
+        if b.len() < 1 + need {
+            (None, b)
+        } else {
+            (Some(("ok", b[1..1 + need].to_vec())), &b[1 + need..])
+        }
+    }
+}
+fn lp_dec_eof(b: &[u8], scale: usize, bad: u8) -> (Option<Item>, &[u8]) {
+    let d = lp_dec(b, scale, bad);
+    if d.0.is_some() {
+        d
+    } else if b.is_empty() {
+        (None, b)
+    } else {
+        (Some(("tail", b.to_vec())), &b[b.len()..])
+    }
+}
+pub fn frames(codec: &str, input: &[u8], scale: usize, bad: u8) -> Vec<Item> {
+    match codec {
+        "lp" => {
+            let mut out = vec![];
+            let mut rest = input;
+            for eof in [false, true] {
+                loop {
+                    let d = if eof { lp_dec_eof(rest, scale, bad) } else { lp_dec(rest, scale, bad) };
+                    rest = d.1;
+                    match d.0 {
+                        None => break,
+                        Some(i) => out.push(i),
+                    }
+                }
+            }
+            out
+        }
+        "lines" => ref_flat(input)
+            .iter()
+            .map(|v| (if v["k"] == "ok" { "ok" } else { "err" }, bytes_of(&v["v"])))
+            .collect(),
+        _ => {
+            if input.is_empty() {
+                vec![]
+            } else {
+                vec![("ok", input.to_vec())]
+            }
+        }
+    }
+}
+/// Norm of FramedRead.tla: BytesCodec frames are compared by concatenation only
+fn norm(codec: &str, items: &[Item]) -> Vec<Item> {
+    if codec == "bytes" {
+        let cat: Vec<u8> = items.iter().flat_map(|i| i.1.iter().cloned()).collect();
+        if cat.is_empty() { vec![] } else { vec![("ok", cat)] }
+    } else {
+        items.to_vec()
+    }
+}
+fn is_prefix(codec: &str, items: &[Item], want: &[Item]) -> bool {
+    let (a, b) = (norm(codec, items), norm(codec, want));
+    if codec == "bytes" {
+        match (a.first(), b.first()) {
+            (None, _) => true,
+            (Some(x), Some(y)) => x.1.len() <= y.1.len() && x.1[..] == y.1[..x.1.len()],
+            _ => false,
+        }
+    } else {
+        a.len() <= b.len() && a[..] == b[..a.len()]
+    }
+}
+
+// ------------------------------------------------------------------------------------------
+// scripted transport
+// ------------------------------------------------------------------------------------------
+pub struct ScriptRead {
+    input: Vec<u8>,
+    pos: usize,
+    script: VecDeque<(String, usize)>,
+    log: Vec<Value>,
+    unscripted: usize,
+    reads: usize,
+    at_eof: bool,
+}
+impl AsyncRead for ScriptRead {
+    fn poll_read(mut self: Pin<&mut Self>, _: &mut Context<'_>, buf: &mut ReadBuf<'_>) -> Poll<io::Result<()>> {
+        self.reads += 1;
+        match self.script.pop_front() {
+            None if self.at_eof => {
+                // a transport that reached end of stream keeps answering 0 bytes
+                self.unscripted += 1;
+                if self.unscripted > 64 {
+                    panic!("runaway: more than 64 reads after end of stream");
+                }
+                self.log.push(json!({"a": "eof", "k": 0, "u": 1}));
+                Poll::Ready(Ok(()))
+            }
+            None => {
+                self.unscripted += 1;
+                if self.unscripted > 64 {
+                    panic!("runaway: more than 64 reads beyond the end of the script");
+                }
+                self.log.push(json!({"a": "pending", "k": 0, "u": 1}));
+                Poll::Pending
+            }
+            Some((a, k)) => match a.as_str() {
+                "data" => {
+                    let n = k.min(self.input.len() - self.pos).min(buf.remaining());
+                    let p = self.pos;
+                    buf.put_slice(&self.input[p..p + n]);
+                    self.pos += n;
+                    if n < k && self.pos < self.input.len() {
+                        // the buffer offered less room than the chunk: the rest of the chunk comes with the next read
+                        self.script.push_front(("data".into(), k - n));
+                    }
+                    self.log.push(json!({"a": if n == 0 { "eof" } else { "data" }, "k": n}));
+                    Poll::Ready(Ok(()))
+                }
+                "eof" => {
+                    self.at_eof = true;
+                    self.log.push(json!({"a": "eof", "k": 0}));
+                    Poll::Ready(Ok(()))
+                }
+                "pending" => {
+                    self.log.push(json!({"a": "pending", "k": 0}));
+                    Poll::Pending
+                }
+                _ => {
+                    self.log.push(json!({"a": "err", "k": 0}));
+                    Poll::Ready(Err(io::Error::new(io::ErrorKind::Other, "scripted")))
+                }
+            },
+        }
+    }
+}
+impl AsyncWrite for ScriptRead {
+    fn poll_write(self: Pin<&mut Self>, _: &mut Context<'_>, _: &[u8]) -> Poll<io::Result<usize>> {
+        Poll::Pending
+    }
+    fn poll_flush(self: Pin<&mut Self>, _: &mut Context<'_>) -> Poll<io::Result<()>> {
+        Poll::Pending
+    }
+    fn poll_shutdown(self: Pin<&mut Self>, _: &mut Context<'_>) -> Poll<io::Result<()>> {
+        Poll::Pending
+    }
+}
+
+trait Poller {
+    /// one poll_next: (item, reads answered during the call, bytes delivered so far)
+    fn poll(&mut self) -> (Item, Vec<Value>, usize);
+    fn reads(&mut self) -> usize;
+}
+struct Run<U: Decoder> {
+    framed: Framed<ScriptRead, U>,
+    conv: fn(U::Item) -> Item,
+    wakers: Wakers,
+}
+impl<U: Decoder<Error = io::Error> + Unpin> Poller for Run<U> {
+    fn poll(&mut self) -> (Item, Vec<Value>, usize) {
+        self.framed.io_mut().log.clear();
+        let waker = self.wakers.waker(1);
+        let mut cx = Context::from_waker(&waker);
+        let conv = self.conv;
+        let r = catch(|| match Pin::new(&mut self.framed).poll_next(&mut cx) {
+            Poll::Pending => ("pending", vec![]),
+            Poll::Ready(None) => ("none", vec![]),
+            Poll::Ready(Some(Ok(it))) => conv(it),
+            Poll::Ready(Some(Err(e))) if e.kind() == io::ErrorKind::Other => ("ioerr", vec![]),
+            Poll::Ready(Some(Err(e))) if e.kind() == io::ErrorKind::InvalidData => ("err", vec![]),
+            Poll::Ready(Some(Err(_))) => ("err:other", vec![]),
+        });
+        let item = r.unwrap_or(("panic", vec![]));
+        let t = self.framed.io_mut();
+        (item, t.log.clone(), t.pos)
+    }
+    fn reads(&mut self) -> usize {
+        self.framed.io_mut().reads
+    }
+}
+fn new_run(codec: &str, input: Vec<u8>, script: VecDeque<(String, usize)>, scale: usize, bad: u8) -> Box<dyn Poller> {
+    let io = ScriptRead { input, pos: 0, script, log: vec![], unscripted: 0, reads: 0, at_eof: false };
+    let wakers = Wakers::new(1);
+    match codec {
+        "lp" => Box::new(Run {
+            framed: Framed::new(io, LpCodec { scale, bad }),
+            conv: |i| match i {
+                LpItem::Frame(v) => ("ok", v),
+                LpItem::Tail(v) => ("tail", v),
+            },
+            wakers,
+        }),
+        "lines" => Box::new(Run {
+            framed: Framed::new(io, LinesCodec::default()),
+            conv: |s: String| ("ok", s.into_bytes()),
+            wakers,
+        }),
+        _ => Box::new(Run { framed: Framed::new(io, BytesCodec), conv: |b: BytesMut| ("ok", b.to_vec()), wakers }),
+    }
+}
+
+/// property C13 on one observed run: items up to the first None / I/O error item.
+/// Returns None if the property holds on what was observed, else a description.
+fn judge(codec: &str, items: &[Item], want: &[Item], err_delivered: bool) -> Option<String> {
+    let end = items.iter().position(|i| i.0 == "none" || i.0 == "ioerr" || i.0 == "panic");
+    let yielded = &items[..end.unwrap_or(items.len())];
+    if let Some(e) = end {
+        if items[e].0 == "panic" {
+            return Some("the stream panicked / ran away instead of yielding".into());
+        }
+    }
+    if !is_prefix(codec, yielded, want) {
+        return Some("yielded items are not a prefix of the whole-stream frames".into());
+    }
+    match end.map(|e| items[e].0) {
+        Some("none") if norm(codec, yielded) != norm(codec, want) => {
+            Some("None before all whole-stream frames were yielded".into())
+        }
+        Some("none") if err_delivered => Some("an I/O error was delivered but never surfaced".into()),
+        Some("ioerr") if !err_delivered => Some("an I/O error item without an I/O error".into()),
+        _ => None,
+    }
+}
+
+pub fn main(long: bool) {
+    let mut trace = Trace::create(&arg("--trace").expect("--trace"));
+    if long {
+        return main_long(trace);
+    }
+    let schedules = arg("--schedules").map(|p| read_ndjson(&p)).unwrap_or_default();
+    let mut mismatches: Vec<Value> = vec![];
+    let mut prop_failures: Vec<Value> = vec![];
+    let mut ref_mismatches: Vec<Value> = vec![];
+    let (mut runs, mut steps, mut terminated) = (0usize, 0usize, 0usize);
+    for (run, sch) in schedules.iter().enumerate() {
+        let codec = gets(sch, "codec");
+        let input = bytes_of(&sch["input"]);
+        let want: Vec<Item> = sch["want"]
+            .as_array()
+            .unwrap()
+            .iter()
+            .map(|v| (kind(gets(v, "k")), bytes_of(&v["v"])))
+            .collect();
+        if frames(codec, &input, 1, 9) != want {
+            ref_mismatches.push(json!({"run": run, "codec": codec, "input": input, "want": sch["want"]}));
+        }
+        let polls = sch["polls"].as_array().unwrap();
+        let script: VecDeque<(String, usize)> = polls
+            .iter()
+            .flat_map(|p| p["io"].as_array().unwrap().iter())
+            .map(|a| (gets(a, "a").to_string(), geti(a, "k") as usize))
+            .collect();
+        let mut r = new_run(codec, input.clone(), script, 1, 9);
+        trace.emit(&json!({"ev": "reset", "run": run, "codec": codec, "input": input}));
+        let mut items: Vec<Item> = vec![];
+        let mut err_delivered = false;
+        let mut bad = false;
+        for (k, exp) in polls.iter().enumerate() {
+            let (item, io, pos) = r.poll();
+            err_delivered |= io.iter().any(|a| a["a"] == "err");
+            let obs = json!({"ev": "poll", "run": run, "io": io, "res": item_json(&item), "pos": pos});
+            trace.emit(&obs);
+            steps += 1;
+            if item.0 != "pending" {
+                items.push(item);
+            }
+            if !bad && exp.get("res").is_some() && (exp["res"] != obs["res"] || exp["io"] != obs["io"]) {
+                bad = true;
+                mismatches.push(json!({"run": run, "step": k, "expected": exp, "observed": obs}));
+            }
+        }
+        if items.iter().any(|i| i.0 == "none") {
+            terminated += 1;
+        }
+        if let Some(why) = judge(codec, &items, &want, err_delivered) {
+            prop_failures.push(json!({"run": run, "why": why,
+                "observed_items": items.iter().map(item_json).collect::<Vec<_>>()}));
+        }
+        runs += 1;
+    }
+    trace.finish();
+    println!(
+        "{}",
+        json!({"runs": runs, "steps": steps, "terminated_with_none": terminated,
+               "mismatches": mismatches.len(), "first_mismatches": mismatches.iter().take(20).collect::<Vec<_>>(),
+               "prop_failures": prop_failures.len(), "first_prop_failures": prop_failures.iter().take(20).collect::<Vec<_>>(),
+               "ref_mismatches": ref_mismatches.len(), "first_ref_mismatches": ref_mismatches.iter().take(3).collect::<Vec<_>>()})
+    );
+}
+
+fn kind(k: &str) -> &'static str {
+    match k {
+        "ok" => "ok",
+        "tail" => "tail",
+        "err" => "err",
+        "none" => "none",
+        "ioerr" => "ioerr",
+        _ => "other",
+    }
+}
+
+/// long random streams (20-64 KiB) with random chunkings (reads of up to 9000 bytes), Pendings and, in a third of
+/// the runs, one I/O error; judged by `frames()` + `judge`.  One summary record per run in the trace.
+fn main_long(mut trace: Trace) {
+    let n = uarg("--random", 10);
+    let mut rng = Rng::seeded(uarg("--seed", 1) as u64, 13);
+    let mut failures: Vec<Value> = vec![];
+    let (mut steps, mut total_bytes, mut total_frames, mut max_read) = (0usize, 0usize, 0usize, 0usize);
+    for run in 0..n {
+        let (codec, scale) = [("lp", 1usize), ("lines", 1), ("bytes", 1), ("lp", 40)][run % 4];
+        let len = rng.range(20 * 1024, 64 * 1024);
+        let mut input: Vec<u8> = Vec::with_capacity(len + 16);
+        match codec {
+            "lp" => {
+                while input.len() < len {
+                    let h = match rng.below(20) {
+                        0 => 255u8, // invalid header
+                        1 => 0,
+                        2 | 3 => 254,
+                        _ => rng.below(if scale == 1 { 254 } else { 120 }) as u8,
+                    };
+                    input.push(h);
+                    if h != 255 {
+                        for j in 0..h as usize * scale {
+                            input.push((j * 13 + run) as u8);
+                        }
+                    }
+                }
+                if rng.below(2) == 0 {
+                    input.truncate(len); // usually cuts the last frame: a tail frame at end of stream
+                }
+            }
+            "lines" => {
+                while input.len() < len {
+                    match rng.below(40) {
+                        0 | 1 => input.push(10),
+                        2 => input.extend([13, 10]),
+                        3 => input.push(13),
+                        4 => input.extend([195, 169]),
+                        5 if rng.below(8) == 0 => input.push(255),
+                        6 if rng.below(30) == 0 => input.extend((0..rng.range(1000, 9000)).map(|_| 97u8)),
+                        _ => input.push(97),
+                    }
+                }
+            }
+            _ => input.extend((0..len).map(|j| (j * 31 + j / 255) as u8)),
+        }
+        let with_err = run % 3 == 2;
+        let err_at = rng.below(input.len());
+        let mut script: VecDeque<(String, usize)> = VecDeque::new();
+        let (mut p, mut err_put) = (0usize, false);
+        while p < input.len() {
+            if with_err && !err_put && p >= err_at {
+                script.push_back(("err".into(), 0));
+                err_put = true;
+            }
+            if rng.below(5) == 0 {
+                script.push_back(("pending".into(), 0));
+            }
+            let k = match rng.below(6) {
+                0 => rng.range(1, 8),
+                1 => [1023, 1024, 1025, 8191, 8192, 8193][rng.below(6)],
+                2 | 3 => rng.range(1, 9000),
+                _ => rng.range(1, 1500),
+            }
+            .min(input.len() - p);
+            script.push_back(("data".into(), k));
+            p += k;
+        }
+        script.push_back(("eof".into(), 0));
+        let nscript = script.len();
+        let want = frames(codec, &input, scale, 255);
+        let mut r = new_run(codec, input.clone(), script, scale, 255);
+        let mut items: Vec<Item> = vec![];
+        let mut err_delivered = false;
+        let mut polls = 0usize;
+        loop {
+            let (item, io, _pos) = r.poll();
+            polls += 1;
+            for a in &io {
+                if a["a"] == "data" {
+                    max_read = max_read.max(a["k"].as_u64().unwrap() as usize);
+                }
+                err_delivered |= a["a"] == "err";
+            }
+            let k = item.0;
+            if k != "pending" {
+                items.push(item);
+            }
+            if k == "none" || k == "ioerr" || k == "panic" || polls > want.len() + 2 * nscript + 10 {
+                break;
+            }
+        }
+        steps += polls;
+        total_bytes += input.len();
+        total_frames += items.len();
+        let verdict = judge(codec, &items, &want, err_delivered).or_else(|| {
+            let last = items.last().map(|i| i.0).unwrap_or("");
+            if last != "none" && last != "ioerr" {
+                Some("the stream never ended".to_string())
+            } else if with_err != (last == "ioerr") {
+                Some("I/O error not surfaced / surfaced without cause".to_string())
+            } else {
+                None
+            }
+        });
+        let rec = json!({"ev": "long", "run": run, "codec": codec, "scale": scale, "len": input.len(), "reads": r.reads(),
+                         "polls": polls, "items": items.len(), "want": want.len(), "with_err": with_err,
+                         "ok": verdict.is_none()});
+        trace.emit(&rec);
+        if let Some(why) = verdict {
+            failures.push(json!({"run": run, "why": why, "summary": rec}));
+        }
+    }
+    trace.finish();
+    println!(
+        "{}",
+        json!({"runs": n, "steps": steps, "bytes": total_bytes, "items": total_frames, "max_read": max_read,
+               "mismatches": failures.len(), "first_mismatches": failures.iter().take(20).collect::<Vec<_>>()})
+    );
+}
